@@ -53,6 +53,8 @@ class Profile:
         self.dump = 0.0                # probability of a raw dump after a mutating step
         self.check_all_versions = 0.3  # probability of a full sweep of all retained versions after a step
         self.big = 0.0                 # probability of a "big tree" history (up to 60 keys)
+        self.empty_out = 0.0           # probability that the history ends by removing every key and pruning everything
+        self.p_savecs = 0.0            # probability that a version is written through SaveChangeSet
         self.p_reopen_old = 0.0        # reopen positioned on an older version (reads only), then back to latest
         self.p_save_existing = 0.5     # after loading an old version: replay the same writes (idempotent save)
         for k, v in kw.items():
@@ -73,6 +75,7 @@ class Hist:
         self.iv_pending = None
         self.iv_opt = 0
         self.wlog = {}         # version -> list of write ops (for idempotent re-save)
+        self.pruned_ever = False
         self.curlog = []
         big = rng.random() < prof.big
         n = rng.randint(20, 60) if big else rng.randint(2, prof.nkeys)
@@ -287,6 +290,39 @@ class Hist:
         self.dirty = False
         self.curlog = []
 
+    def savecs(self):
+        r = self.r
+        pairs = []
+        shadow = dict(self.working)
+        bad = r.random() < 0.12
+        for _ in range(r.randint(0, 5)):
+            if r.random() < 0.35 and shadow:
+                k = r.choice(sorted(shadow))
+                pairs.append("del:" + enc(k))
+                del shadow[k]
+            else:
+                k = r.choice(self.keys)
+                v = self.value()
+                pairs.append("%s=%s" % (enc(k), enc(v)))
+                shadow[k] = v
+        if bad:
+            missing = [k for k in self.keys if k not in shadow] or [b"\x01missing"]
+            pairs.insert(r.randint(0, len(pairs)), "del:" + enc(r.choice(missing)))
+            self.emit("savecs " + ",".join(pairs))   # rejected: removal of a missing key
+            self.emit("rollback")
+            self.emit("avail")
+            return
+        self.emit("savecs " + (",".join(pairs) if pairs else "-"))
+        self.working = shadow
+        v = self.wver()
+        if v not in self.versions:
+            self.versions[v] = dict(self.working)
+            self.wlog[v] = []
+        self.base = v
+        self.iv_pending = None
+        self.dirty = False
+        self.curlog = []
+
     def after_commit(self):
         r, p = self.r, self.p
         if r.random() < p.proofs:
@@ -294,10 +330,14 @@ class Hist:
         if r.random() < p.exports:
             v = r.choice(sorted(self.versions))
             self.emit("imm %d export %s" % (v, r.choice(["plain", "zip"])))
-        if r.random() < p.changes:
-            a = r.randint(0, self.latest() + 1)
-            b = r.randint(a, self.latest() + 2)
-            self.emit("changes %d %d" % (a, b))
+        if r.random() < p.changes and self.versions:
+            lo = self.first() + 1 if self.pruned_ever else self.first()
+            if lo <= self.latest():
+                a = r.randint(lo, self.latest() + 1)
+                b = r.randint(a, self.latest() + 2)
+                self.emit("changes %d %d" % (a, b))
+            if not self.pruned_ever and r.random() < 0.3:
+                self.emit("replaycs")
         if r.random() < p.dump:
             self.emit("dump")
         if r.random() < p.check_all_versions:
@@ -341,6 +381,7 @@ class Hist:
             self.emit("prune %d" % hi)       # rejected, no effect
             return
         self.emit("prune %d" % n)
+        self.pruned_ever = True
         for v in list(self.versions):
             if v <= n:
                 del self.versions[v]
@@ -442,6 +483,11 @@ class Hist:
         r, p = self.r, self.p
         nv = r.randint(*p.versions)
         for _ in range(nv):
+            if r.random() < p.p_savecs and not self.dirty:
+                self.savecs()
+                self.imm_reads()
+                self.after_commit()
+                continue
             self.write_ops()
             self.read_ops()
             if r.random() < p.p_rollback:
@@ -478,7 +524,24 @@ class Hist:
             elif x < p.p_loadow + p.p_reopen + p.p_load_old + p.p_delfrom:
                 self.delfrom()
                 self.after_commit()
+        if r.random() < p.empty_out and self.opened:
+            # once every key has been removed and older versions deleted no node remains at all
+            if self.dirty:
+                self.rollback()
+            for k in sorted(self.working):
+                self.emit("rm " + enc(k))
+            self.working = {}
+            self.save()
+            self.save()
+            if self.latest() > self.first():
+                self.emit("prune %d" % (self.latest() - 1))
+                for v in list(self.versions):
+                    if v < self.latest():
+                        del self.versions[v]
+            self.emit("dump")
         self.sweep()
+        if p.dump > 0:
+            self.emit("dump")
         return self.lines
 
 
@@ -655,4 +718,101 @@ def gen_c10(seed, n, start_id=0):
             lines += ["avail", "latest", "size", "lhash", "close", "open", "avail", "size", "lhash"]
             lines += ["ifempty miterate", "ifempty set x61 x31", "ifempty rm x61", "ifempty set x62 x32", "ifempty save", "avail"]
             out.append((hid, lines))
+    return out
+
+
+# ---------------------------------------------------------------------------------------------
+# C11: insertion orders that stress rebalancing; every key and every rank queried; storage reads
+# per lookup counted with nothing cached
+
+def gen_c11(seed, n, start_id=0):
+    out = []
+    for i in range(n):
+        r = random.Random((seed * 104729 + start_id + i) & 0xFFFFFFFFFFFF)
+        hid = "b%d" % (start_id + i)
+        nk = r.choice([1, 2, 3, 5, 8, 13, 21, 34, 55, 80])
+        order = r.choice(["asc", "desc", "alt", "rand", "rand"])
+        keys = sorted({bytes([r.randrange(256) for _ in range(r.randint(1, 3))]) for _ in range(nk)})
+        if order == "desc":
+            seq = keys[::-1]
+        elif order == "alt":
+            seq = []
+            a, b = 0, len(keys) - 1
+            while a <= b:
+                seq.append(keys[a])
+                if a != b:
+                    seq.append(keys[b])
+                a += 1
+                b -= 1
+        elif order == "rand":
+            seq = keys[:]
+            r.shuffle(seq)
+        else:
+            seq = keys[:]
+        lines = ["new " + hid,
+                 "cfg db=%s cache=0 fast=%d thr=%d iv=-" % (r.choice(["mem", "mem", "ldb"]), r.randint(0, 1), r.choice([0, 300])),
+                 "open"]
+        present = []
+        commits = 0
+        per = r.choice([1, 3, 7, 1000])
+
+        def probe():
+            lines.append("height")
+            lines.append("size")
+            if not present:
+                return
+            ks = sorted(present)
+            for k in r.sample(ks, min(len(ks), 6)):
+                lines.append("gwi " + enc(k))
+            for idx in r.sample(range(len(ks)), min(len(ks), 6)) + [len(ks), len(ks) + 3]:
+                lines.append("gbi %d" % idx)
+            lines.append("gwi " + enc(ks[0][:-1] + b"\x00" if len(ks[0]) > 1 else b""))
+
+        def counted(ver):
+            if not present:
+                return
+            ks = sorted(present)
+            pre = "reads imm %d " % ver
+            for k in r.sample(ks, min(len(ks), 4)):
+                lines.append(pre + "get " + enc(k))
+                lines.append(pre + "has " + enc(k))
+                lines.append(pre + "gwi " + enc(k))
+                lines.append(pre + "proof " + enc(k))
+            lines.append(pre + "gbi %d" % r.randrange(len(ks)))
+            lines.append(pre + "gbi %d" % (len(ks) - 1))
+            lines.append(pre + "proof " + enc(ks[-1] + b"\x01"))
+            lines.append(pre + "proof " + enc(b""))
+            lines.append(pre + "has " + enc(ks[0] + b"\x00"))
+
+        for j, k in enumerate(seq):
+            lines.append("set %s %s" % (enc(k), enc(bytes([r.randrange(1, 256)]))))
+            present.append(k)
+            if (j + 1) % per == 0:
+                lines.append("save")
+                commits += 1
+                probe()
+        lines.append("save")
+        commits += 1
+        probe()
+        counted(commits)
+        # removals that empty subtrees
+        rm = present[:]
+        r.shuffle(rm)
+        cut = r.choice([len(rm) // 2, len(rm) - 1, len(rm)])
+        for j, k in enumerate(rm[:cut]):
+            lines.append("rm " + enc(k))
+            present.remove(k)
+            if j % 5 == 4:
+                probe()
+        lines.append("save")
+        commits += 1
+        probe()
+        counted(commits)
+        if r.random() < 0.5 and commits > 2:
+            lines.append("prune %d" % r.randint(1, commits - 1))
+            counted(commits)     # re-keyed roots add a fall-back read
+            lines.append("close")
+            lines.append("open")
+            counted(commits)
+        out.append((hid, lines))
     return out
